@@ -6,6 +6,7 @@ mod monitors;
 mod monitors2;
 mod monitors3;
 mod script2;
+mod script3;
 mod genstats;
 mod fuzz;
 mod refmodel;
@@ -744,7 +745,11 @@ fn cmd_run(prop: &str, tier: &str, seed: u64, workers: u64, hists_override: Opti
     if let Some(path) = &c20_addr_violation {
         lines.push(format!("VIOLATION property=C20 replay={path}"));
     }
-    for h in &c20_mismatch {
+    c20_mismatch.sort();
+    if c20_mismatch.len() > 5 {
+        println!("note: {} histories differ between hash seeds; the first 5 are reported", c20_mismatch.len());
+    }
+    for h in c20_mismatch.iter().take(5) {
         let path = format!("{vd}/replays/C20-{seed}-{h}.json");
         std::fs::write(&path, serde_json::json!({"prop":"C20","seed":seed,"hist":h,"kind":"digest mismatch between hash seeds","rerun": format!("sim digest C20 {seed} {h} under two VERIF_HASH_SEED values")}).to_string()).unwrap();
         lines.push(format!("VIOLATION property=C20 replay={path}"));
